@@ -63,6 +63,9 @@ type Step struct {
 	RetBool  bool          // return value of add operations
 	Pinged   enode.ID      // PingReply: which node the table chose to ping
 	PingNode *enode.Node   // record the table pinged with
+	// PingSeenAt is the step at whose start the ping was first seen pending (PingReply). The monitor may
+	// hold a ping for several steps before answering, so deletions and re-additions can happen in between.
+	PingSeenAt int
 }
 
 func (s Step) String() string {
